@@ -10,6 +10,7 @@ package rig
 import (
 	"encoding/json"
 	"fmt"
+	"math"
 	"math/rand"
 	"os"
 	"path/filepath"
@@ -232,6 +233,7 @@ var loaderShapes = []shape{
 	{"sig_lower", "sigterm"}, {"sig_bogus", "SIGBOGUS"}, {"cron_bad", "61 * * * *"}, {"neg", -3}, {"huge", 1 << 40},
 	{"cron_tz_only", "TZ=UTC"}, {"cron_crontz_only", "CRON_TZ=Asia/Tokyo"}, {"cron_tz_ok", "TZ=UTC 0 1 * * *"}, {"cron_every", "@every 1h"},
 	{"cron_every_bad", "@every"}, {"cron_six", "* * * * * *"}, {"cron_at_bogus", "@bogus"}, {"cron_range_bad", "5-1 * * * *"}, {"cron_step_zero", "*/0 * * * *"},
+	{"float_nan", math.NaN()}, {"float_inf", math.Inf(1)}, {"list_nan", []any{math.NaN()}}, {"map_nan", map[any]any{"k": math.Inf(-1)}},
 	{"list_listmap", []any{[]any{map[any]any{"a": 1}}}}, {"map_list_map", map[any]any{"k": []any{map[any]any{"a": 1}}}},
 }
 
